@@ -169,6 +169,43 @@ claim('C08',
       'pairing',
       'DESIGN.md section 4 C08')
 
+claim('C09',
+      'Decides the mechanisms that make luafmt whitespace-only and lossless: '
+      'a raising end-of-walk test dominates normal completion of every AST '
+      'writer; the formatter overrides only the spacing hook; each regex '
+      'substitution of its pipeline is shown on automata to match only blank '
+      'space (+ comment introducer), to write only blank space, to reproduce '
+      'the introducer it matched and to preserve line ends; every node type '
+      'has a handler reading every field; parser-consumed terminals per node '
+      'type are emitted by the handler.',
+      'Decided: the necessary conditions above, for all programs. Four open '
+      'known findings: parenthesised prefix expressions under '
+      'FunctionCall/FunctionCallMethod/VarIndex/VarAttribute make every AST '
+      'writer raise AssertionError (known_findings.json). Not decided: '
+      'token/comment order equality for a concrete program; "succeeds on '
+      'every valid program" beyond the assertion sites the agreement rule '
+      'covers.',
+      'static analysis: CFG dominance, MRO diff, regex-language inclusion on '
+      'automata with symbolic replacement templates, parser-path vs handler '
+      'terminal inventories',
+      'DESIGN.md section 4 C09')
+claim('C10',
+      'Decides the depth bookkeeping of the formatter for all programs: each '
+      'handler is unfolded into event paths (booleans tracked, loops '
+      'unrolled) and must be balanced, increment right after its opener, '
+      'decrement right before its closer, closers at the outer depth, blocks '
+      'one level deeper; plus the comment introducers known to the pipeline '
+      '== those of the lexer, and the ordering dependencies of the '
+      'normalisation steps.',
+      'Decided: the structural conditions above. NOT decided (stated '
+      'plainly): idempotence, independence from input indentation beyond the '
+      'introducer/ordering conditions, exact columns -- these quantify over '
+      'the composition of twelve substitutions on unbounded strings.',
+      'static analysis: bounded path unfolding of handlers with boolean '
+      'correlation, event-sequence checks, regex-language queries, constant '
+      'evaluation',
+      'DESIGN.md section 4 C10')
+
 
 def main():
     props = []
